@@ -242,3 +242,27 @@ func VerifHarness_C19_StrongAndWeakAgree() {
 	verifrt.Assert(Is(strong, weak) && Is(weak, strong), "strong-and-weak-compare-as-the-same-reference")
 	verifrt.Reach("end")
 }
+
+// C19: ids of every length up to the FHIR maximum of 64 characters format and parse back - and one more character is
+// rejected: the id is 'a' repeated, with a symbolic last byte (so that the accepted alphabet is decided at each length).
+func VerifHarness_C19_IdsOfEveryLength() {
+	n := []int{1, 2, 63, 64, 65}[verifrt.Choose("length", 5)]
+	b := make([]byte, n)
+	for i := range b {
+		b[i] = 'a'
+	}
+	last := verifrt.NondetStringN("last", 1)
+	b[n-1] = last[0]
+	id := string(b)
+	c := last[0]
+	want := n <= 64 && ((c >= 'A' && c <= 'Z') || (c >= 'a' && c <= 'z') || (c >= '0' && c <= '9') || c == '-' || c == '.')
+	lit, err := LiteralInfoFromURI("Patient/" + id)
+	verifrt.Assert((err == nil && lit != nil) == want, "an-id-is-accepted-exactly-up-to-64-characters-of-the-id-alphabet")
+	if err == nil && lit != nil {
+		verifrt.Assert(lit.URIString() == "Patient/"+id, "accepted-id-formats-back")
+	}
+	strong := &dtpb.Reference{Reference: &dtpb.Reference_PatientId{PatientId: &dtpb.ReferenceId{Value: id}}}
+	_, errS := IdentityOf(strong)
+	verifrt.Assert((errS == nil) == want, "the-typed-form-accepts-the-same-ids")
+	verifrt.Reach("end")
+}
